@@ -164,7 +164,7 @@ func TestC20(t *testing.T) {
 	defer h.Finish()
 	h.Probes()
 
-	h.Rapid("pipelines", h.N(20000, 100000), func(rt *rapid.T) {
+	h.Rapid("pipelines", h.N(20000, 400000), func(rt *rapid.T) {
 		c, labels := genPipeline(rt, h.Avoid, 8, false)
 		data, ends := resp.EncodeAll(c.values())
 		if rapid.IntRange(0, 2).Draw(rt, "pw") == 0 {
